@@ -122,6 +122,11 @@ fn main() {
             println!("{}", hostile::run_async_hostile(&cfgs, &PathBuf::from(get("out", "work/ahostile"))));
             0
         }
+        "twowriters" => {
+            let cfgs: Vec<String> = get("cfgs", "mem").split(';').map(|s| s.to_string()).collect();
+            println!("{}", handles::run_two_writers(&cfgs, get("scripts", "50").parse().unwrap(), get("seed", "1").parse().unwrap(), get("b", "1").parse().unwrap(), &PathBuf::from(get("out", "work/tw"))));
+            0
+        }
         "embdyn" => {
             println!("{}", embrun::run_dyn(&get("cases", ""), &get("names", "ascii"), &PathBuf::from(get("out", "work/embdyn"))));
             0
